@@ -474,6 +474,12 @@ func finishScalar(t *rapid.T, c *ScalarCase) {
 		}
 	}
 	c.Lead = rapid.SampledFrom([]string{"", "", "", "time", "time", "unexported", "plain", "all", "", "", "wide", "sub", "psub"}).Draw(t, "leadFields")
+	if c.Lead == "wide" && c.Carrier != "rm" && rapid.IntRange(0, 7).Draw(t, "wideWithTag") != 3 {
+		// (a struct type whose tag holds the rule text is a new type for every case, and synthesised types are never
+		// released: a 261-field type per case costs a thorough-tier process gigabytes - measured 4.2 GB per shard -
+		// so next to a tag the wide lead is kept for one case in eight; the rm carrier's type carries no rule text)
+		c.Lead = "plain"
+	}
 }
 
 // genAgain: now and then our URL parameter occurs more than once.
